@@ -156,6 +156,31 @@ func VxEncryptorBlobAsRecord() {
 	vxAssert("a BarrierEncryptor ciphertext installed under a storage key is rejected", gerr != nil && got == nil)
 }
 
+// long storage keys (nested KV paths are routinely longer than 100 bytes): two keys that agree on a long common
+// prefix and differ only in their tail are still bound separately - the WHOLE key is authenticated, whatever its
+// length; lengths around powers of two are included because fixed-size buffers live there
+func VxTransplantLongKeys() {
+	ctx := context.Background()
+	phys := vxNewPhys()
+	b, _, _ := vxBarrier(phys, AESGCMVersion2, 7)
+	n := []int{31, 63, 64, 127, 128, 129, 255, 256, 300}[vxChoose("common prefix length", 9)]
+	pfx := make([]byte, n)
+	for i := range pfx {
+		pfx[i] = 'k'
+	}
+	k1 := string(pfx) + vxString("tail 1", 1+vxChoose("tail length", 2))
+	k2 := string(pfx) + vxString("tail 2", 1+vxChoose("tail length 2", 2))
+	vxAssume(k1 != k2)
+	v1, v2 := vxBytes("v1", 1), vxBytes("v2", 1)
+	vxAssert("puts succeed", b.Put(ctx, &logical.StorageEntry{Key: k1, Value: v1}) == nil && b.Put(ctx, &logical.StorageEntry{Key: k2, Value: v2}) == nil)
+	e, err := b.Get(ctx, k1)
+	vxAssert("long key round trip", err == nil && e != nil && vxSameBytes(e.Value, v1))
+	phys.vals[0] = append([]byte(nil), phys.vals[1]...)
+	got, gerr := b.Get(ctx, k1)
+	vxReach("long key transplant")
+	vxAssert("a record moved between two long keys that share a long prefix is rejected", gerr != nil && got == nil)
+}
+
 // Encrypt/Decrypt (BarrierEncryptor) round trip and binding
 func VxEncryptDecrypt() {
 	ctx := context.Background()
